@@ -146,6 +146,20 @@ MUTANTS = [
      "        Updatable.clear(self, **kwargs)\n        self.synapse.clear(**kwargs)", "        Updatable.clear(self, **kwargs)\n        if self.updatable or self.delayedby is None:\n            self.synapse.clear(**kwargs)"),
     ("serial_capture_returns_transformed", "C17", 1500, "inferno/neural/network.py",
      "            return (outputs, res)", "            return (outputs, self.wiring(res, **kwargs) if len(res) == 1 and len(outputs) == 1 and 'serial' in res else res)"),
+    ("ckpt_pointer_not_extra", "C12", 80, "inferno/core/infrastructure.py",
+     "        if isinstance(owner, Module):\n            owner.register_extra(self.__attributes.pointer, 0)\n        else:\n            setattr(owner, self.__attributes.pointer, 0)", "        setattr(owner, self.__attributes.pointer, 0)"),
+    ("ckpt_fold_initial_not_extra", "C12", 80, "inferno/observe/reducers/base.py",
+     "        self.register_extra(\"_initial\", True)", "        self._initial = True"),
+    ("ckpt_ca_count_not_extra", "C12", 120, "inferno/observe/reducers/stats.py",
+     "        self.register_extra(\"_count\", 0)", "        self._count = 0"),
+    ("ckpt_classifier_no_postload", "C12", 120, "inferno/learn/classifiers/simple.py",
+     "        self.register_load_state_dict_post_hook(sdhook)", "        pass"),
+    ("ckpt_feedback_spikes_nonpersistent", "C12", 120, "inferno/neural/network.py",
+     "        self.register_buffer(\"feedback_spikes\", None)", "        self.register_buffer(\"feedback_spikes\", None, persistent=False)"),
+    ("ckpt_adaptation_nonpersistent", "C12", 120, "inferno/neural/neurons/mixins.py",
+     "        self.register_buffer(\"current_adaptation_\", data)", "        self.register_buffer(\"current_adaptation_\", data, persistent=False)"),
+    ("ckpt_set_extra_state_skips_falsy", "C12", 120, "inferno/core/infrastructure.py",
+     "        self._extras.update(state)", "        self._extras.update({k: v for k, v in state.items() if v or k not in self._extras})"),
     ("resize_keeps_head", "C13", 3000, INFRA,
      "            slices[dim] = slice(tensor.shape[dim] - size, None)\n            return tensor[*slices]", "            slices[dim] = slice(None, size)\n            return tensor[*slices]"),
     ("resize_no_align", "C13", 3000, INFRA,
